@@ -47,6 +47,7 @@ def units(tier, seed):
 
 # ------------------------------------------------------------------ generation (REF-SYN tuples)
 
+M61 = (1 << 61) - 1
 SUBS = (0, 0, 0, 1, 2, 9, 10, 11)
 
 
@@ -96,10 +97,12 @@ def near_misses(rng, t):
     if k in ('A', 'c', 'v'):
         yield (k, (t[1] + 1) % 4, t[2])
         yield (k, t[1], t[2] + 1)
+        yield (k, t[1], t[2] + M61)        # a different subscript with the same int hash (CPython hashes ints mod 2**61-1)
         if k != 'A':
             yield ('v' if k == 'c' else 'c', t[1], t[2])
     elif k == 'pred':
         if t[1] >= 0:
+            yield ('pred', t[1], t[2] + M61, t[3])
             yield ('pred', t[1], t[2], t[3] + 1)
             yield ('pred', t[1], t[2] + 1, t[3])
             yield ('pred', (t[1] + 1) % 4, t[2], t[3])
@@ -179,7 +182,9 @@ def run_unit(unit, out, tier, seed):
         t = rnd_item(rng)
         items.append(t)
         if rng.random() < 0.5:
-            items.extend(list(near_misses(rng, t))[:2])
+            nm = list(near_misses(rng, t))
+            rng.shuffle(nm)
+            items.extend(nm[:2])
     built = []
     for t in items:
         try:
@@ -336,7 +341,19 @@ def run_unit(unit, out, tier, seed):
             break
         n1 = rng.randint(0, 3)
         ts1 = [rng.choice(sents) for _ in range(n1 + 1)]
-        if rng.random() < 0.5:
+        r_ = rng.random()
+        if r_ < 0.3:
+            # one sentence replaced by a near miss of it (incl. hash-colliding subscripts)
+            ts2 = list(ts1)
+            j = rng.randrange(len(ts2))
+            nm = list(near_misses(rng, ts2[j][0]))
+            if nm:
+                try:
+                    t_nm = rng.choice(nm)
+                    ts2[j] = (t_nm, syn.to_lib(t_nm))
+                except Exception:
+                    pass
+        elif r_ < 0.6:
             ts2 = list(ts1)
             if rng.random() < 0.5 and len(ts2) > 2:
                 ts2[1], ts2[2] = ts2[2], ts2[1]      # premise order matters
